@@ -244,6 +244,20 @@ func translateFetchHeader(fd *ast.FuncDecl) (string, error) {
 			if !ok {
 				return "", fmt.Errorf("%s: untranslated condition", fd.Name.Name)
 			}
+			if be.Op == token.LOR && !bodyMakesError(s.Body) && containsCall(s.Body, "Errorf") && s.Else == nil {
+				// a sanity bound on a count read from the wire (`if n < -1 || n > remain/16 { err = fmt.Errorf(…); return }`):
+				// a frame it rejects fails in the element loop as well, or is a negative count (C20's subject)
+				mentions := false
+				ast.Inspect(be, func(n ast.Node) bool {
+					if e, ok := n.(ast.Expr); ok && (roles.abLen[exprString(e)] || roles.ones[exprString(e)]) {
+						mentions = true
+					}
+					return true
+				})
+				if mentions {
+					continue
+				}
+			}
 			x := exprString(be.X)
 			switch {
 			case roles.ones[x] && isIntLit(be.Y, "1"): // merged into .expect1
